@@ -184,10 +184,21 @@ func widthOf(k reflect.Kind) int {
 	return 0
 }
 
+// fieldAt resolves a (possibly dotted) field name
+func fieldAt(obj reflect.Value, name string) reflect.Value {
+	for _, part := range strings.Split(name, ".") {
+		if !obj.IsValid() || obj.Kind() != reflect.Struct {
+			return reflect.Value{}
+		}
+		obj = obj.FieldByName(part)
+	}
+	return obj
+}
+
 // setFields writes the specification's value into a Go struct
 func setFields(obj reflect.Value, fields []lField) error {
 	for _, f := range fields {
-		fv := obj.FieldByName(f.N)
+		fv := fieldAt(obj, f.N)
 		if !fv.IsValid() {
 			return fmt.Errorf("no field %s", f.N)
 		}
@@ -216,6 +227,20 @@ func setFields(obj reflect.Value, fields []lField) error {
 			}
 		case "bcd":
 			fv.SetString(bcdString(f.B))
+		case "fstr":
+			fv.SetString(string(f.B))
+		case "items":
+			sl := reflect.MakeSlice(fv.Type(), len(f.Items), len(f.Items))
+			for i, raw := range f.Items {
+				var sub []lField
+				if err := jsonUnmarshal(raw, &sub); err != nil {
+					return err
+				}
+				if err := setFields(sl.Index(i), sub); err != nil {
+					return err
+				}
+			}
+			fv.Set(sl)
 		case "lstr":
 			fv.SetString(string(f.B))
 			if err := setCount(f.Ln, len(f.B)); err != nil {
@@ -257,7 +282,7 @@ func setFields(obj reflect.Value, fields []lField) error {
 // cmpFields compares a parsed Go struct with the specification's value; "" when equal
 func cmpFields(obj reflect.Value, fields []lField, path string) string {
 	for _, f := range fields {
-		fv := obj.FieldByName(f.N)
+		fv := fieldAt(obj, f.N)
 		if !fv.IsValid() {
 			return path + f.N + ": no such field"
 		}
@@ -289,6 +314,21 @@ func cmpFields(obj reflect.Value, fields []lField, path string) string {
 		case "bcd":
 			if fv.String() != bcdString(f.B) {
 				return fmt.Sprintf("%s%s: got %q want %q", path, f.N, fv.String(), bcdString(f.B))
+			}
+		case "fstr":
+			if fv.String() != string(f.B) {
+				return fmt.Sprintf("%s%s: got %q want %q", path, f.N, fv.String(), string(f.B))
+			}
+		case "items":
+			if fv.Len() != len(f.Items) {
+				return fmt.Sprintf("%s%s: %d items, want %d", path, f.N, fv.Len(), len(f.Items))
+			}
+			for i, raw := range f.Items {
+				var sub []lField
+				jsonUnmarshal(raw, &sub)
+				if d := cmpFields(fv.Index(i), sub, fmt.Sprintf("%s%s[%d].", path, f.N, i)); d != "" {
+					return d
+				}
 			}
 		case "lstr":
 			if fv.String() != string(f.B) {
@@ -330,19 +370,48 @@ func cmpFields(obj reflect.Value, fields []lField, path string) string {
 	return ""
 }
 
-func newModel(name string) (modelHandler, bool) {
-	for _, t := range targets() {
-		if t.name == name {
-			return t.mk(consts.JT808Protocol2013, consts.ActiveSafetyJS).(*modelRecv).h, true
+// newModel: the receiver for a layout name; "_v<n>" selects the protocol version, "_d<n>" the active-safety dialect
+func newModel(name string) (modelHandler, consts.ProtocolVersionType, bool) {
+	base, ver, dia := name, consts.JT808Protocol2013, consts.ActiveSafetyJS
+	if i := strings.LastIndex(name, "_"); i > 0 && len(name) == i+3 {
+		base = name[:i]
+		switch name[i+1] {
+		case 'v':
+			ver = consts.ProtocolVersionType(name[i+2] - '0')
+		case 'd':
+			dia = consts.ActiveSafetyType(name[i+2] - '0')
 		}
 	}
-	return nil, false
+	var h modelHandler
+	switch base {
+	case "T0x0100":
+		h = &model.T0x0100{Version: ver}
+	case "T0x0102":
+		h = &model.T0x0102{Version: ver}
+	case "T0x0704":
+		h = &model.T0x0704{}
+	case "T0x1210":
+		h = &model.T0x1210{P9208AlarmSign: model.P9208AlarmSign{ActiveSafetyType: dia}}
+	case "P0x9208":
+		h = &model.P0x9208{P9208AlarmSign: model.P9208AlarmSign{ActiveSafetyType: dia}}
+	case "P0x8104":
+		h = &model.P0x8104{}
+	case "P0x9003":
+		h = &model.P0x9003{}
+	default:
+		for _, t := range targets() {
+			if t.name == base {
+				h = t.mk(ver, dia).(*modelRecv).h
+			}
+		}
+	}
+	return h, ver, h != nil
 }
 
 func listLen(fields []lField) int {
 	n := 0
 	for _, f := range fields {
-		if f.K == "ulist" || f.K == "list" {
+		if f.K == "ulist" || f.K == "list" || f.K == "items" {
 			n = len(f.Items)
 		}
 	}
@@ -379,7 +448,7 @@ func init() {
 			}
 			cls := fmt.Sprintf("%s list-len=%d", c.Type, listLen(c.Fields))
 			// 1. the specification's value, set on the real struct, must encode to the specification's bytes
-			h, ok := newModel(c.Type)
+			h, ver, ok := newModel(c.Type)
 			if !ok {
 				return fmt.Errorf("no model type %s", c.Type)
 			}
@@ -396,9 +465,17 @@ func init() {
 				put("encode-differs "+cls, fmt.Sprintf("Encode gives %x, the layout %x", enc, []byte(c.Body)), c)
 			}
 			// 2. the specification's bytes must parse to the specification's value
-			h2, _ := newModel(c.Type)
+			h2, _, _ := newModel(c.Type)
+			if r, ok := h2.(*model.T0x0100); ok {
+				r.Version = 0 // Parse has to find the version itself
+			} else if r, ok := h2.(*model.T0x0102); ok {
+				r.Version = 0
+			}
 			m := jt808.NewJTMessage()
-			m.Header.ProtocolVersion = consts.JT808Protocol2013
+			m.Header.ProtocolVersion = ver
+			if ver == consts.JT808Protocol2011 {
+				m.Header.ProtocolVersion = consts.JT808Protocol2013 // the frame decoder cannot tell 2011 from 2013
+			}
 			m.Body = exact(c.Body)
 			var perr error
 			if p := protect(func() { perr = h2.Parse(m) }); p != "" {
@@ -411,6 +488,10 @@ func init() {
 			}
 			if d := cmpFields(reflect.ValueOf(h2).Elem(), c.Fields, ""); d != "" {
 				put("parse-differs "+cls, d, c)
+				return nil
+			}
+			if vf := reflect.ValueOf(h2).Elem().FieldByName("Version"); vf.IsValid() && strings.Contains(c.Type, "_v") && consts.ProtocolVersionType(vf.Uint()) != ver {
+				put("parse-differs "+cls, fmt.Sprintf("Version: got %d want %d", vf.Uint(), ver), c)
 				return nil
 			}
 			// 3. re-encoding the parsed value gives the identical bytes
